@@ -198,6 +198,10 @@ def run(fx, tier):
         v.check(ok, 'R-DOM', 'assemble_op::dispatch%s [%s]' % (f.inst(), f.tu),
                 'replies are routed with (control byte & 0xF0, id decoded from this packet, this packet\'s span)',
                 key='C01:R-DOM:assemble_op::dispatch', where=f.file)
+    # the packet that carries the request is the one MQTT 5 defines for these arguments (shared with C17)
+    from c17 import encoder_schema_rules
+    v.rule('R-SCHEMA', 'wire schema of encode_publish vs the MQTT 5 packet table (field order, kinds, sources, flag bits, Remaining Length)')
+    encoder_schema_rules(fx, v, 'C01', only=('encode_publish',))
     fast_reply_rules(fx, v, 'C01')
     # the acknowledged PUBLISH is the one the caller passed: a retransmission differs from it in the DUP bit only
     from c03 import set_dup_rule
